@@ -685,4 +685,41 @@ theorem reader_result_verifies (T : Tables) (k : EanKind) (row : List Bool) (tex
               · cases h
               · rename_i hacc; cases h; exact hacc
 
+/-! ### not proved: the faithful row decoder on rendered symbols
+
+FULL STATEMENT (`upcean_read_write`, not proved):
+  for k ∈ {EAN-13, EAN-8, UPC-A, UPC-E}, every content c the writer accepts, every scale s ≥ 1 and quiet zones
+  leftQuiet ≥ 3·s, rightQuiet ≥ g·s + 1 (g = 3 modules of the end guard, 6 for UPC-E):
+    decodeRow T k (replicate leftQuiet false ++ scale s (modules k c) ++ replicate rightQuiet false) = ok (canonical c)
+  for every table T that is well-formed (Obligations/C03: L/G patterns pairwise distinct, widths sum to 7).
+What exists instead: the row-decoder model `decodeRow` / `multiDecodeRow` is compared with the real readers on every
+rendered row of the correspondence suite (all six geometries), `reader_result_verifies` shows it only returns verified
+numbers, C20 proves the scale invariance of the variance it uses (`pmv_scale_invariant`), and the evaluated instances
+below run the complete writer → render → row decoder pipeline inside the kernel.  Missing for the general theorem:
+the run-length lemmas for concatenated scaled patterns (`recordPattern` on `scale s (appendPattern …)`) and
+"distinct patterns have strictly positive variance" for the best-match loop. -/
+
+/-! ### non-vacuity and evaluated end-to-end instances -/
+example : WF128 refTables.code128 = true := by decide +kernel
+example : WFITF refTables = true := by decide
+example : code128Codes [65, 49, 50, 51, 52, 97] none = .ok [104, 33, 99, 12, 34, 100, 65, 58, 106] := by decide +kernel
+example : code128ReadCodes [104, 33, 99, 12, 34, 100, 65, 58, 106] = .ok [65, 49, 50, 51, 52, 97] := by decide +kernel
+example : code39Symbols refTables [65, 97] = .ok [10, 41, 10] := by decide
+example : code39ReadSymbols refTables [10, 41, 10] true = .ok [65, 97] := by decide
+example : (itfModules refTables (digitBytes [1, 2, 3, 4, 5, 6])).bind (itfIdeal refTables [6, 8, 10, 12, 14])
+    = .ok (digitBytes [1, 2, 3, 4, 5, 6]) := by decide +kernel
+/-- EAN-13 "4006381333931": writer → default rendering (margin 9) → row decoder model, inside the kernel -/
+example : ((ean13Modules refTables (digitBytes [4, 0, 0, 6, 3, 8, 1, 3, 3, 3, 9, 3])).bind (fun m => renderRow m 0 9)).bind
+    (decodeRow refTables .ean13) = .ok (digitBytes [4, 0, 0, 6, 3, 8, 1, 3, 3, 3, 9, 3, 1]) := by decide +kernel
+/-- the same symbol at 2 px / module through the multi-format dispatch without hint: EAN_13 -/
+example : ((ean13Modules refTables (digitBytes [4, 0, 0, 6, 3, 8, 1, 3, 3, 3, 9, 3])).bind (fun m => renderRow m 208 9)).bind
+    (multiDecodeRow refTables []) = .ok (.ean13, digitBytes [4, 0, 0, 6, 3, 8, 1, 3, 3, 3, 9, 3, 1]) := by decide +kernel
+/-- KNOWN FINDING on the model (mirrors the code): UPC-E "0000000" rendered with the default margin 9 is NOT read
+    back — the right quiet zone (5 px) is narrower than the 6-module end guard the reader insists on … -/
+example : ((upceModules refTables (digitBytes [0, 0, 0, 0, 0, 0, 0])).bind (fun m => renderRow m 0 9)).bind
+    (decodeRow refTables .upce) = .error .notFound := by decide +kernel
+/-- … while with margin 14 (7 px on the right) it is -/
+example : ((upceModules refTables (digitBytes [0, 0, 0, 0, 0, 0, 0])).bind (fun m => renderRow m 0 14)).bind
+    (decodeRow refTables .upce) = .ok (digitBytes [0, 0, 0, 0, 0, 0, 0, 0]) := by decide +kernel
+
 end Gzx.Properties.C03
